@@ -93,6 +93,8 @@ func varity(op byte) int {
 
 type vStepOpts struct {
 	depth, k, adepth, cdepth, extra int
+	bigTop                          int  // >0: the top operand may be up to bigTop bytes long (numeric count operands)
+	inUnlock                        bool // place the instruction in the unlocking script, behind two NOPs, with a symbolic code-separator position
 	withTx                  bool
 	sigOps                  bool
 }
@@ -145,6 +147,14 @@ func vstepThread(o vStepOpts) (*thread, byte, bool) {
 	}
 	th.scripts = []ParsedScript{{}, ps}
 	th.scriptIdx = 1
+	if o.inUnlock {
+		one := bscript.Script{bscript.Op1}
+		lps, _ := th.scriptParser.Parse(&one)
+		nop := ParsedOpcode{op: opcodeArray[bscript.OpNOP]}
+		th.scripts = []ParsedScript{append(ParsedScript{nop, nop}, ps...), lps}
+		th.scriptIdx, th.scriptOff = 0, 2
+		th.lastCodeSep = vnondetLen("lastcodesep", 0, 1)
+	}
 	md := flags&scriptflag.VerifyMinimalData != 0
 	th.dstack = newStack(th.cfg, md)
 	th.astack = newStack(th.cfg, md)
@@ -161,6 +171,9 @@ func vstepThread(o vStepOpts) (*thread, byte, bool) {
 		k = vparam("KM", 1) // symbolic x symbolic multiplication / division: operand size bounded separately
 	}
 	th.dstack.stk = vstackItems("d", d, k)
+	if o.bigTop > 0 && len(th.dstack.stk) > 0 {
+		th.dstack.stk[len(th.dstack.stk)-1] = vnondetBytes("bigtop", 0, o.bigTop)
+	}
 	if op == bscript.OpFROMALTSTACK || op == bscript.OpTOALTSTACK {
 		th.astack.stk = vstackItems("a", o.adepth, o.k)
 	}
